@@ -74,8 +74,8 @@ package withstack
 // ---- stack conversion / one-line source (C15, C11) ----
 //@ func parsePrintedStack
 //@   props C15
-//@   trusted "parser of the printed stack text (element writes into a fresh frame slice; outside the executor's subset): returns a new, non-nil stack trace object"
-//@   ensures result != nil
+//@   trusted "parser of the printed stack text (element writes into a fresh frame slice; outside the executor's subset): returns a new stack trace object, nil exactly for the empty text (a stack without frames)"
+//@   ensures (result == nil) == (trimSpace(st) == "")
 
 //@ func convertPkgStack
 //@   props C15 C11
